@@ -30,6 +30,32 @@ class Infra(Exception):
     """infrastructure problem: exit 2, never a violation"""
 
 
+class NodePanic(Exception):
+    """the driver process died of a Go panic raised inside the code under test (first frame below the panic lies in the
+    repository, not in the harness): the node would have crashed. Checks that judge a node that gives up may turn this into
+    a violation; everybody else lets it become an Infra."""
+    def __init__(self, msg, where):
+        Exception.__init__(self, msg)
+        self.where = where
+
+
+def _panic_origin(stderr):
+    """(message, first source frame) of a Go panic trace, or None"""
+    m = re.search(r"^panic: (.*)$", stderr, re.M)
+    if not m:
+        return None
+    tail = stderr[m.end():]
+    g = re.search(r"^goroutine \d+ \[running\]:\n(.*?)(?:\n\n|\Z)", tail, re.M | re.S)
+    if not g:
+        return None
+    frames = re.findall(r"^\t(/\S+\.go):(\d+)", g.group(1), re.M)
+    for path, line in frames:
+        if "/src/runtime/" in path or "/go/pkg/mod/" in path and "golang.org/toolchain" in path:
+            continue
+        return m.group(1).strip(), "%s:%s" % (path, line)
+    return None
+
+
 def seed():
     try:
         return int(os.environ.get("VERIF_SEED", "1"))
@@ -128,6 +154,9 @@ def run_driver(binp, args, timeout=1800, env=None, stdin=None):
     except subprocess.TimeoutExpired:
         raise Infra("driver timeout: %s" % " ".join(args))
     if r.returncode != 0:
+        po = _panic_origin(r.stderr) if r.returncode == 2 else None
+        if po and os.path.realpath(po[1].rsplit(":", 1)[0]).startswith(os.path.realpath(REPO) + os.sep):
+            raise NodePanic("the code under test panicked: %s at %s" % po, po[1])
         raise Infra("driver failed (rc=%d): %s\n%s\n%s" % (r.returncode, " ".join(args), r.stdout[-3000:], r.stderr[-3000:]))
     return r.stdout
 
@@ -461,6 +490,9 @@ def main(fn, prop):
     try:
         fn()
     except Infra as e:
+        log("INFRA property=%s: %s" % (prop, e))
+        sys.exit(2)
+    except NodePanic as e:     # not turned into a verdict by this check
         log("INFRA property=%s: %s" % (prop, e))
         sys.exit(2)
     except subprocess.TimeoutExpired as e:
